@@ -146,6 +146,11 @@ func C15_SPI() {
 		// results produced under a cancelled context do not lead to a proposal / vote being broadcast or stored
 		env.Assert("C15.spi.no_send_after_cancel", len(n.comm.Out) == s0.out)
 		env.Assert("C15.spi.no_store_after_cancel", len(n.st.Events) == s0.events)
+		if site == 3 {
+			// C07: a fresh proposal whose consumer validation was aborted (cancelled context, whatever the SPI
+			// returned) is not a consumer-validated block: the NEW_VIEW must not be adopted
+			env.Assert("C07.fresh.validation_not_aborted", len(n.comm.Out) == s0.out && len(n.st.Events) == s0.events)
+		}
 		env.Reach("C15.spi.cancelled")
 	} else {
 		env.Assert("C15.spi.proceeds_when_live", len(n.comm.Out) > s0.out)
